@@ -54,10 +54,12 @@ case "${1:-}" in
   C09)
     build
     "$VERIF/.build/grulesim" check C09 "${2:-quick}"; rc=$?
-    if [ "${2:-quick}" = "thorough" ] && [ $rc -ne 2 ]; then
-      # auxiliary arm, thorough tier only, clearly not simulation: real goroutines under the race detector
+    if [ $rc -ne 2 ]; then
+      # auxiliary arm, clearly not simulation: real goroutines under the race detector
+      # (2 000 scenarios in the quick tier, 20 000 in the thorough tier)
+      n=2000; [ "${2:-quick}" = "thorough" ] && n=20000
       build_race
-      "$VERIF/.build/grulesim-race" racearm "${VERIF_RACE_SCENARIOS:-20000}"; rc2=$?
+      "$VERIF/.build/grulesim-race" racearm "${VERIF_RACE_SCENARIOS:-$n}"; rc2=$?
       [ $rc2 -gt $rc ] && rc=$rc2
     fi
     exit $rc ;;
